@@ -123,7 +123,7 @@ class ClassifierAfterKMeans(BaseEstimator, ClassifierMixin):
         <mlinsights.mlmodel.classification_kmeans.ClassifierAfterKMeans.set_params>`
         describes the pattern parameters names follow.
         """
-        res = {}
+        res = {"estimator": self.estimator, "clus": self.clus}
         for k, v in self.clus.get_params().items():
             res["c_" + k] = v
         for k, v in self.estimator.get_params().items():
@@ -142,7 +142,11 @@ class ClassifierAfterKMeans(BaseEstimator, ClassifierMixin):
         """
         pc, pe = {}, {}
         for k, v in values.items():
-            if k.startswith("e_"):
+            if k == "estimator":
+                self.estimator = v
+            elif k == "clus":
+                self.clus = v
+            elif k.startswith("e_"):
                 pe[k[2:]] = v
             elif k.startswith("c_"):
                 pc[k[2:]] = v
